@@ -125,6 +125,8 @@ BC_KINDS = [
     {"value": -1}, {"value": -2}, {"derivative": -1}, {"derivative": -2},
     {"low": {"value": 0}, "high": {"derivative": 0}}, {"low": {"derivative": 0}, "high": {"value": 0}},
     {"low": {"value": 1}, "high": {"value": 2}}, {"value_expression": "1.5"}, {"derivative_expression": "0.5"},
+    {"value_expression": "1 + t"}, {"value_expression": "2 + t"}, {"derivative_expression": "t"},
+    {"value_expression": "1 + COORD"}, {"value_expression": "2 * COORD"}, {"derivative_expression": "COORD"},
 ]
 
 OPS_BY_RANK = {0: ["laplace", "gradient", "gradient_squared"], 1: ["divergence", "vector_gradient", "vector_laplace"],
@@ -192,14 +194,15 @@ def gen_plan(rng, tier, idx):
             kwargs = {}
             if name == "laplace" and grids[fs["grid"]]["cls"] in ("SphericalSymGrid",) and rng.random() < 0.3:
                 kwargs = {"conservative": rng.random() < 0.5}
-            ops.append({"op": "operator", "f": f, "name": name, "bc": _bc(rng), "backend": backend, "via": via, "kwargs": kwargs})
+            ops.append({"op": "operator", "f": f, "name": name, "bc": _bc(rng), "backend": backend, "via": via, "kwargs": kwargs,
+                        "t": rng.choice([0.0, 0.5, 1.0])})
         elif r < 0.46:
             ops.append({"op": "interp", "f": f, "pts_seed": rng.randrange(1 << 30), "n": rng.randint(1, 4),
-                        "bc": _bc(rng) if rng.random() < 0.4 else None, "fill": rng.choice([None, 0.0, -1.0]),
+                        "bc": _bc(rng) if rng.random() < 0.4 else None, "fill": rng.choice([None, 0.0, -1.0, -2.0, -1, -2]),
                         "via": rng.choice(["interpolate", "interpolate", "make_interpolator"])})
         elif r < 0.50:
             ops.append({"op": "interp_grid", "f": f, "g2": rng.choice(sorted(grids)), "bc": _bc(rng) if rng.random() < 0.5 else None,
-                        "fill": 0.0})
+                        "fill": rng.choice([0.0, 0.0, -1.0, -2.0])})
         elif r < 0.58:
             k = rng.randint(1, 3)
             members = [rng.choice(fids) for _ in range(k)]
@@ -215,12 +218,15 @@ def gen_plan(rng, tier, idx):
                         "via": rng.choice(["evolution_rate", "make_pde_rhs"]), "backend": rng.choice(["numpy", "numba"])})
         elif r < 0.88:
             state = f if rng.random() < 0.7 or ncoll == 0 else f"c{rng.randrange(min(ncoll, 3))}"
+            solver = rng.choice(["euler", "euler", "runge-kutta", "implicit", "adams-bashforth", "crank-nicolson"])
             ops.append({"op": "solve", "eq": rng.choice(sorted(eqs)), "state": state, "steps": rng.randint(1, 3), "dt": 1e-4,
-                        "solver": rng.choice(["euler", "euler", "runge-kutta", "implicit", "adams-bashforth"]),
-                        "backend": rng.choice(["numpy", "numba"]), "kw": {}})
+                        "solver": solver, "backend": rng.choice(["numpy", "numba"]),
+                        "kw": {"adaptive": True, "tolerance": 1e-3} if solver in ("euler", "runge-kutta") and rng.random() < 0.25 else {}})
         elif r < 0.90:
             ops.append({"op": "poisson", "f": f, "bc": rng.choice([{"value": 0}, {"value": 1}, {"low": {"value": 0}, "high": {"derivative": 0}},
                                                                    {"low": {"derivative": 0}, "high": {"value": 0}}])})
+        elif r < 0.915:
+            ops.append({"op": "insert", "f": f, "pts_seed": rng.randrange(1 << 30)})
         elif r < 0.93:
             ops.append({"op": "measure", "f": f})
         elif r < 0.95:
@@ -510,3 +516,14 @@ def simplify(plan):
             p = copy.deepcopy(plan)
             p["header"]["fields"][fid]["rank"] = 0
             yield p
+
+
+def post_batch(tier, seed, agg):
+    """Thorough tier: a sample of the same histories with real numba compilation (history process and reference)."""
+    if tier != "thorough" and not os.environ.get("VERIF_JIT"):
+        return None
+    import sys
+
+    from sim.core import jit_sample
+
+    return jit_sample(sys.modules[__name__], seed, runs=32, budget_s=900, timeout_s=1500)
